@@ -12,7 +12,9 @@ def register(R, P):
         if e != "BaseException":
             R.cls(e, bases=(R.exc_parents[e] or "BaseException",))
     R.cls("System", fields={"executor": "Executor", "callstack": "CallStack", "_recalc_dependents": "bool"})
-    R.cls("CellsBoundFunction", fields={"owner": "CellsImpl"})
+    R.cls("CellsBoundFunction", fields={"owner": "CellsImpl", "fresh": "CellsBoundFunction"},
+          doc="`fresh` (LazyEval.fresh, a property that refreshes the bound function and returns it) is modelled as a field read; "
+              "the refresh is part of the abstract procedure FormulaRun")
     R.cls("TraceGraph", content="graph")
     R.cls("ReferenceGraph", content="graph[rnode]")
     R.cls("TraceManager")
